@@ -471,3 +471,154 @@ package types
 //@ vars (types.MsgRespondService).ValidateBasic: msg=github.com/irismod/service/types.MsgRespondService#0 err=error#0 err=error#1 err=error#2 result=github.com/irismod/service/types.Result#0 err=error#3
 //@ props C20 C05 C18
 //@ ensures [C20,C05,C18] provider_present_and_request_id_58_bytes: err == NoErr ==> len(msg.Provider) > 0 && len(msg.RequestId) == 58
+
+// ---------------------------------------------------------------- signers and routing (C05): the account whose signature the ante handler checks is the one the handler treats as the actor
+//@ func (MsgDefineService).GetSigners
+//@ vars (types.MsgDefineService).GetSigners: msg=github.com/irismod/service/types.MsgDefineService#0
+//@ props C05
+//@ ensures [C05] the_only_signer_is_the_author_the_handler_acts_for: len(result) == 1 && result[0] == msg.Author
+
+//@ func (MsgDefineService).Route
+//@ vars (types.MsgDefineService).Route: msg=github.com/irismod/service/types.MsgDefineService#0
+//@ props C05
+//@ ensures [C05] routed_to_this_module: result == "service"
+
+//@ func (MsgBindService).GetSigners
+//@ vars (types.MsgBindService).GetSigners: msg=github.com/irismod/service/types.MsgBindService#0
+//@ props C05
+//@ ensures [C05] the_only_signer_is_the_owner_the_handler_acts_for: len(result) == 1 && result[0] == msg.Owner
+
+//@ func (MsgBindService).Route
+//@ vars (types.MsgBindService).Route: msg=github.com/irismod/service/types.MsgBindService#0
+//@ props C05
+//@ ensures [C05] routed_to_this_module: result == "service"
+
+//@ func (MsgUpdateServiceBinding).GetSigners
+//@ vars (types.MsgUpdateServiceBinding).GetSigners: msg=github.com/irismod/service/types.MsgUpdateServiceBinding#0
+//@ props C05
+//@ ensures [C05] the_only_signer_is_the_owner_the_handler_acts_for: len(result) == 1 && result[0] == msg.Owner
+
+//@ func (MsgUpdateServiceBinding).Route
+//@ vars (types.MsgUpdateServiceBinding).Route: msg=github.com/irismod/service/types.MsgUpdateServiceBinding#0
+//@ props C05
+//@ ensures [C05] routed_to_this_module: result == "service"
+
+//@ func (MsgSetWithdrawAddress).GetSigners
+//@ vars (types.MsgSetWithdrawAddress).GetSigners: msg=github.com/irismod/service/types.MsgSetWithdrawAddress#0
+//@ props C05
+//@ ensures [C05] the_only_signer_is_the_owner_the_handler_acts_for: len(result) == 1 && result[0] == msg.Owner
+
+//@ func (MsgSetWithdrawAddress).Route
+//@ vars (types.MsgSetWithdrawAddress).Route: msg=github.com/irismod/service/types.MsgSetWithdrawAddress#0
+//@ props C05
+//@ ensures [C05] routed_to_this_module: result == "service"
+
+//@ func (MsgDisableServiceBinding).GetSigners
+//@ vars (types.MsgDisableServiceBinding).GetSigners: msg=github.com/irismod/service/types.MsgDisableServiceBinding#0
+//@ props C05
+//@ ensures [C05] the_only_signer_is_the_owner_the_handler_acts_for: len(result) == 1 && result[0] == msg.Owner
+
+//@ func (MsgDisableServiceBinding).Route
+//@ vars (types.MsgDisableServiceBinding).Route: msg=github.com/irismod/service/types.MsgDisableServiceBinding#0
+//@ props C05
+//@ ensures [C05] routed_to_this_module: result == "service"
+
+//@ func (MsgEnableServiceBinding).GetSigners
+//@ vars (types.MsgEnableServiceBinding).GetSigners: msg=github.com/irismod/service/types.MsgEnableServiceBinding#0
+//@ props C05
+//@ ensures [C05] the_only_signer_is_the_owner_the_handler_acts_for: len(result) == 1 && result[0] == msg.Owner
+
+//@ func (MsgEnableServiceBinding).Route
+//@ vars (types.MsgEnableServiceBinding).Route: msg=github.com/irismod/service/types.MsgEnableServiceBinding#0
+//@ props C05
+//@ ensures [C05] routed_to_this_module: result == "service"
+
+//@ func (MsgRefundServiceDeposit).GetSigners
+//@ vars (types.MsgRefundServiceDeposit).GetSigners: msg=github.com/irismod/service/types.MsgRefundServiceDeposit#0
+//@ props C05
+//@ ensures [C05] the_only_signer_is_the_owner_the_handler_acts_for: len(result) == 1 && result[0] == msg.Owner
+
+//@ func (MsgRefundServiceDeposit).Route
+//@ vars (types.MsgRefundServiceDeposit).Route: msg=github.com/irismod/service/types.MsgRefundServiceDeposit#0
+//@ props C05
+//@ ensures [C05] routed_to_this_module: result == "service"
+
+//@ func (MsgCallService).GetSigners
+//@ vars (types.MsgCallService).GetSigners: msg=github.com/irismod/service/types.MsgCallService#0
+//@ props C05
+//@ ensures [C05] the_only_signer_is_the_consumer_the_handler_acts_for: len(result) == 1 && result[0] == msg.Consumer
+
+//@ func (MsgCallService).Route
+//@ vars (types.MsgCallService).Route: msg=github.com/irismod/service/types.MsgCallService#0
+//@ props C05
+//@ ensures [C05] routed_to_this_module: result == "service"
+
+//@ func (MsgRespondService).GetSigners
+//@ vars (types.MsgRespondService).GetSigners: msg=github.com/irismod/service/types.MsgRespondService#0
+//@ props C05
+//@ ensures [C05] the_only_signer_is_the_provider_the_handler_acts_for: len(result) == 1 && result[0] == msg.Provider
+
+//@ func (MsgRespondService).Route
+//@ vars (types.MsgRespondService).Route: msg=github.com/irismod/service/types.MsgRespondService#0
+//@ props C05
+//@ ensures [C05] routed_to_this_module: result == "service"
+
+//@ func (MsgPauseRequestContext).GetSigners
+//@ vars (types.MsgPauseRequestContext).GetSigners: msg=github.com/irismod/service/types.MsgPauseRequestContext#0
+//@ props C05
+//@ ensures [C05] the_only_signer_is_the_consumer_the_handler_acts_for: len(result) == 1 && result[0] == msg.Consumer
+
+//@ func (MsgPauseRequestContext).Route
+//@ vars (types.MsgPauseRequestContext).Route: msg=github.com/irismod/service/types.MsgPauseRequestContext#0
+//@ props C05
+//@ ensures [C05] routed_to_this_module: result == "service"
+
+//@ func (MsgStartRequestContext).GetSigners
+//@ vars (types.MsgStartRequestContext).GetSigners: msg=github.com/irismod/service/types.MsgStartRequestContext#0
+//@ props C05
+//@ ensures [C05] the_only_signer_is_the_consumer_the_handler_acts_for: len(result) == 1 && result[0] == msg.Consumer
+
+//@ func (MsgStartRequestContext).Route
+//@ vars (types.MsgStartRequestContext).Route: msg=github.com/irismod/service/types.MsgStartRequestContext#0
+//@ props C05
+//@ ensures [C05] routed_to_this_module: result == "service"
+
+//@ func (MsgKillRequestContext).GetSigners
+//@ vars (types.MsgKillRequestContext).GetSigners: msg=github.com/irismod/service/types.MsgKillRequestContext#0
+//@ props C05
+//@ ensures [C05] the_only_signer_is_the_consumer_the_handler_acts_for: len(result) == 1 && result[0] == msg.Consumer
+
+//@ func (MsgKillRequestContext).Route
+//@ vars (types.MsgKillRequestContext).Route: msg=github.com/irismod/service/types.MsgKillRequestContext#0
+//@ props C05
+//@ ensures [C05] routed_to_this_module: result == "service"
+
+//@ func (MsgUpdateRequestContext).GetSigners
+//@ vars (types.MsgUpdateRequestContext).GetSigners: msg=github.com/irismod/service/types.MsgUpdateRequestContext#0
+//@ props C05
+//@ ensures [C05] the_only_signer_is_the_consumer_the_handler_acts_for: len(result) == 1 && result[0] == msg.Consumer
+
+//@ func (MsgUpdateRequestContext).Route
+//@ vars (types.MsgUpdateRequestContext).Route: msg=github.com/irismod/service/types.MsgUpdateRequestContext#0
+//@ props C05
+//@ ensures [C05] routed_to_this_module: result == "service"
+
+//@ func (MsgWithdrawEarnedFees).GetSigners
+//@ vars (types.MsgWithdrawEarnedFees).GetSigners: msg=github.com/irismod/service/types.MsgWithdrawEarnedFees#0
+//@ props C05
+//@ ensures [C05] the_only_signer_is_the_owner_the_handler_acts_for: len(result) == 1 && result[0] == msg.Owner
+
+//@ func (MsgWithdrawEarnedFees).Route
+//@ vars (types.MsgWithdrawEarnedFees).Route: msg=github.com/irismod/service/types.MsgWithdrawEarnedFees#0
+//@ props C05
+//@ ensures [C05] routed_to_this_module: result == "service"
+
+
+// ---------------------------------------------------------------- the legal parameter sets (A6): what Params.Validate accepts
+//@ func (Params).Validate
+//@ vars (types.Params).Validate: p=github.com/irismod/service/types.Params#0 err=error#0 err=error#1 err=error#2 err=error#3 err=error#4 err=error#5 err=error#6 err=error#7
+//@ props C20 C04 C02 C14
+//@ theory coins keys
+//@ ensures [C20,C04,C02,C14] accepts_only_legal_parameters: result == NoErr ==> p.MaxRequestTimeout > 0 && p.MinDepositMultiple > 0 && coinsValid(p.MinDeposit) &&
+//@      0 <= p.SlashFraction && p.SlashFraction <= decOne && 0 <= p.ServiceFeeTax && p.ServiceFeeTax < decOne &&
+//@      p.ComplaintRetrospect > 0 && p.ArbitrationTimeLimit > 0 && p.TxSizeLimit > 0
